@@ -4,7 +4,8 @@ import ScionVerif.Lemmas.PathMgr
 
 Model: `Model/PathSet.lean` (one per-pair path set of the `MultiPathManager`, driven by the operations
 `maintain now <fetcher answer>`, `report <issue>`, `deliver now`, `send now`).  The policy is an arbitrary
-predicate `env.allowed`; f32 scores, the hash-map iteration order and the backoff duration are arbitrary
+predicate `env.allowed` (for several attached policies: their conjunction `allowedAll pols`, see
+`handout_every_policy`); f32 scores, the hash-map iteration order and the backoff duration are arbitrary
 arguments of the operations, so every statement below holds for all of them.
 
 All theorems quantify over every start time `t0`, every configuration, every policy and every finite
@@ -131,6 +132,47 @@ theorem error_not_unfiltered (env : Env) (t0 : Nat) (ops : List Op)
       · exact Or.inr ⟨_, rfl⟩
       · exact Or.inr ⟨_, rfl⟩
 
+/-- `allowedAll` is the conjunction of the attached policies (and accepts everything when none is attached) -/
+theorem allowedAll_iff (pols : List (Path → Bool)) (p : Path) :
+    allowedAll pols p = true ↔ ∀ pol ∈ pols, pol p = true := by
+  unfold allowedAll
+  exact List.all_eq_true
+
+/-- **handout_every_policy.** With any number of attached policies (`PathStrategy::add_policy` called
+    0, 1, 2, … times; the strategy predicate is their conjunction `allowedAll pols`), whatever
+    `cached_path` / `path` hand to a sender after any history satisfies EVERY attached policy - the
+    first as much as the last - and so do every cached entry and the active slot. -/
+theorem handout_every_policy (pols : List (Path → Bool)) (env : Env) (henv : env.allowed = allowedAll pols)
+    (t0 : Nat) (ops : List Op) (now : Nat) (p : Path)
+    (h : sendCached (run env t0 ops) now = some p ∨ sendPath (run env t0 ops) now = .ok p) :
+    ∀ pol ∈ pols, pol p = true := by
+  have ha := (handout_allowed env t0 ops now p h).1
+  rw [henv] at ha
+  exact (allowedAll_iff pols p).1 ha
+
+theorem inv_every_policy (pols : List (Path → Bool)) (env : Env) (henv : env.allowed = allowedAll pols)
+    (t0 : Nat) (ops : List Op) :
+    Inv (fun p => (∀ pol ∈ pols, pol p = true) ∧ p ∈ offered ops) (run env t0 ops) := by
+  have hi := inv_policy env t0 ops
+  rw [henv] at hi
+  exact ⟨fun p hp => ⟨(allowedAll_iff pols p).1 (hi.1 p hp).1, (hi.1 p hp).2⟩,
+         fun p hp => ⟨(allowedAll_iff pols p).1 (hi.2 p hp).1, (hi.2 p hp).2⟩⟩
+
+/-- one rejecting policy among the attached ones suffices: if every offered path is rejected by SOME attached
+    policy (not necessarily the last one), nothing is ever handed out -/
+theorem error_not_unfiltered_any_policy (pols : List (Path → Bool)) (env : Env)
+    (henv : env.allowed = allowedAll pols) (t0 : Nat) (ops : List Op)
+    (hnone : ∀ p ∈ offered ops, ∃ pol ∈ pols, pol p = false) (now : Nat) :
+    sendCached (run env t0 ops) now = none ∧
+    (sendPath (run env t0 ops) now = .wait ∨ ∃ e, sendPath (run env t0 ops) now = .err e) := by
+  have h := error_not_unfiltered env t0 ops (fun p hp => by
+    rcases hnone p hp with ⟨pol, hm, hf⟩
+    rw [henv]
+    cases hall : allowedAll pols p with
+    | false => rfl
+    | true => have := (allowedAll_iff pols p).1 hall pol hm; rw [hf] at this; cases this) now
+  exact ⟨h.2.2.1, h.2.2.2⟩
+
 /-- fetcher contract: every returned path connects the requested pair -/
 def FetcherContract (env : Env) (ops : List Op) : Prop :=
   ∀ p ∈ offered ops, p.src = env.src ∧ p.dst = env.dst
@@ -161,5 +203,15 @@ example : ∀ p ∈ offered [Op.maintain 0 (.ok [pB]) (fun _ => 0) (fun _ => 0) 
   intro p hp
   simp [offered, Resp.paths] at hp
   subst hp; decide
+
+/-! two attached policies: the first rejects `pA`, the last accepts everything - `pA` is never handed out -/
+private def polsEx : List (Path → Bool) := [fun p => p.fp != 1, fun _ => true]
+private def pC : Path := ⟨3, some 2000, 10, 20, some [⟨10, 1⟩, ⟨20, 2⟩], some 1, some 2⟩
+private def envEx2 : Env := { cfg := defaultCfg, src := 10, dst := 20, allowed := allowedAll polsEx }
+example : envEx2.allowed = allowedAll polsEx := rfl
+example : envEx2.allowed pA = false := by decide
+example : sendCached (run envEx2 0 [.maintain 0 (.ok [pA, pC]) (fun _ => 0) (fun _ => 0) [] 0, .send 1]) 1 = some pC := by decide
+example : sendCached (run envEx2 0 [.maintain 0 (.ok [pA]) (fun _ => 0) (fun _ => 0) [] 0, .send 1]) 1 = none := by decide
+example : allowedAll [] pA = true := by decide
 
 end ScionVerif.PathMgr
